@@ -1,4 +1,4 @@
-\* G05: the same scenarios x every direction / mode x {parent holds the secret, parent holds another}
+\* G05: every well-formed single triple and all the other scenarios x every direction / mode x {parent holds the secret, parent holds another}
 SPECIFICATION Spec
 CONSTANTS
   Tier = "all"
